@@ -104,6 +104,15 @@ func TestVerif_C16(t *testing.T) {
 	for round := 0; round < rounds; round++ {
 		// 1. build and locally validate 1..4 pending snapshots on distinct chains
 		k := 1 + rng.Intn(4)
+		// two rounds are fixed shapes (so that every run, at every seed, exercises them): three pending deposits of
+		// half the BTC capacity each, and two pending first deposits of one fresh asset naming different chain data
+		shape := ""
+		switch round {
+		case 4:
+			shape, k = "half-capacity-each", 3
+		case 9:
+			shape, k = "fresh-asset-different-chain-data", 2
+		}
 		perm := rng.Perm(len(f.net.NodeIds))[:k]
 		if rng.Intn(2) == 0 { // the replica's own chain takes part in half of the rounds (proposer path)
 			own := false
@@ -116,12 +125,15 @@ func TestVerif_C16(t *testing.T) {
 		}
 		var pend []*vC16Pending
 		var roundSubmits []crypto.Hash // submissions validated in this round, still pending
-		sameAsset := rng.Intn(3) == 0
+		sameAsset := rng.Intn(3) == 0 || shape != ""
 		var forced *verifgen.AssetInfo
 		conflictInfo := false
 		if sameAsset {
 			a := assets[1+rng.Intn(2)] // BTC or ETH
-			if rng.Intn(6) == 0 {      // a fresh asset whose pending first deposits disagree on chain data
+			if shape == "half-capacity-each" {
+				a = assets[1]
+			}
+			if shape == "fresh-asset-different-chain-data" || shape == "" && rng.Intn(6) == 0 { // a fresh asset whose pending first deposits disagree on chain data
 				unknownCount++
 				a = verifgen.AssetInfo{Id: crypto.Sha256Hash([]byte(fmt.Sprintf("verif-c16-conflict-%d-%d", r.Seed, unknownCount))),
 					Chain: common.EthereumAssetId, Key: fmt.Sprintf("0xc%039d", unknownCount)}
@@ -136,8 +148,11 @@ func TestVerif_C16(t *testing.T) {
 			if rng.Intn(3) == 0 {
 				nb = 2 + rng.Intn(3)
 			}
+			if shape != "" {
+				nb = 1
+			}
 			// a withdrawal claim: references a finalized submission, or one that is only pending in this round
-			if rng.Intn(5) == 0 && len(roundSubmits)+len(finalSubmits) > 0 {
+			if shape == "" && rng.Intn(5) == 0 && len(roundSubmits)+len(finalSubmits) > 0 {
 				var in *verifgen.Out
 				for _, o := range w.Outs {
 					if o.Asset == common.XINAssetId && verifgen.UnitsOf(o.Amount).Cmp(big.NewInt(20000)) > 0 {
@@ -174,6 +189,9 @@ func TestVerif_C16(t *testing.T) {
 					if forced != nil {
 						capU := vC16Capacity(forced.Id)
 						units := new(big.Int).Div(capU, big.NewInt(int64(3+rng.Intn(9))))
+						if shape == "half-capacity-each" {
+							units = new(big.Int).Div(capU, big.NewInt(2))
+						}
 						fa := *forced
 						kind = "deposit-same-asset"
 						if conflictInfo {
@@ -189,7 +207,11 @@ func TestVerif_C16(t *testing.T) {
 					p.deposit = info
 				} else {
 					var ins []*verifgen.Out
-					if rng.Intn(5) == 0 {
+					forced := round%6 == 3 && b == 0 // regularly: a three-output withdrawal in a hostile shape
+					if forced {
+						tx, specs, ins = w.TransferWithdrawal(1+rng.Intn(2), 3, true)
+						kind = "withdrawal"
+					} else if rng.Intn(5) == 0 {
 						tx, specs, ins = w.TransferWithdrawal(1+rng.Intn(3), 1+rng.Intn(3), true)
 						kind = "withdrawal"
 					} else {
@@ -201,7 +223,7 @@ func TestVerif_C16(t *testing.T) {
 					}
 					// hostile shape: one of the later outputs gets a special output type (usually refused by validation;
 					// whatever validation lets through must finalize)
-					if len(specs) >= 2 && (rng.Intn(10) == 0 || kind == "withdrawal" && len(specs) >= 3 && rng.Intn(2) == 0) {
+					if len(specs) >= 2 && (forced || rng.Intn(10) == 0 || kind == "withdrawal" && len(specs) >= 3 && rng.Intn(2) == 0) {
 						special := []uint8{common.OutputTypeWithdrawalClaim, common.OutputTypeWithdrawalClaim, common.OutputTypeWithdrawalSubmit, common.OutputTypeNodePledge,
 							common.OutputTypeNodeAccept, common.OutputTypeNodeCancel}
 						ms := append([]verifgen.OutSpec{}, specs...)
@@ -210,6 +232,10 @@ func TestVerif_C16(t *testing.T) {
 							j = len(ms) - 1
 						}
 						ty := special[rng.Intn(len(special))]
+						if forced && len(ms) >= 3 { // the special types and both later positions in turn
+							j = 1 + (round/6)%2
+							ty = special[(round/12)%len(special)]
+						}
 						ms[j] = verifgen.OutSpec{Type: ty, Amount: ms[j].Amount}
 						if ty == common.OutputTypeWithdrawalSubmit {
 							ms[j].Withdrawal = &common.WithdrawalData{Address: "addr2", Tag: "t"}
@@ -248,7 +274,7 @@ func TestVerif_C16(t *testing.T) {
 			}
 			// transient write conflicts during validation (another chain's commit touched a key this one had read):
 			// the node retries them, and what it then reports as validated must be finalizable
-			if rng.Intn(4) == 0 || chainId == f.node.IdForNetwork && rng.Intn(2) == 0 {
+			if shape == "" && (rng.Intn(4) == 0 || chainId == f.node.IdForNetwork && rng.Intn(2) == 0) {
 				m := []string{"WriteTransaction", "WriteTransaction", "WriteTransaction", "LockUTXOs", "LockDepositInput", "LockGhostKeys"}[rng.Intn(6)]
 				px.mu.Lock()
 				px.conflicts = map[string]int{m: 1 + rng.Intn(2)}
